@@ -133,6 +133,10 @@ pub struct WireCase {
     /// the first one with a different address: distinct ids that only differ by address.
     #[serde(default)]
     pub twin_ids: bool,
+    /// The third digest entry (and the third delta member) reuse the generation and the address of
+    /// the first one with a different node id: distinct ids that only differ by node id.
+    #[serde(default)]
+    pub twin_by_name: bool,
 }
 
 pub fn model_of(case: &WireCase) -> WMsg {
@@ -159,6 +163,16 @@ pub fn model_of(case: &WireCase) -> WMsg {
             digest[1].id.port = first.port.wrapping_add(1);
         }
     }
+    if case.twin_by_name && digest.len() >= 3 {
+        let first = digest[0].id.clone();
+        let t = &mut digest[2].id;
+        t.generation = first.generation;
+        t.ip = first.ip.clone();
+        t.port = first.port;
+        if t.node_id == first.node_id {
+            t.node_id.push('x');
+        }
+    }
     let mut deltas: Vec<WNodeDelta> = Vec::new();
     for d in &case.deltas {
         uniq += 1;
@@ -180,6 +194,16 @@ pub fn model_of(case: &WireCase) -> WMsg {
         deltas[1].id.generation = first.generation;
         if deltas[1].id.ip == first.ip && deltas[1].id.port == first.port {
             deltas[1].id.port = first.port.wrapping_add(1);
+        }
+    }
+    if case.twin_by_name && deltas.len() >= 3 {
+        let first = deltas[0].id.clone();
+        let t = &mut deltas[2].id;
+        t.generation = first.generation;
+        t.ip = first.ip.clone();
+        t.port = first.port;
+        if t.node_id == first.node_id {
+            t.node_id.push('x');
         }
     }
     match case.kind % 4 {
@@ -463,6 +487,7 @@ fn bulky_case_strategy() -> impl Strategy<Value = WireCase> {
         }],
         blocking: Blocking::Canonical,
         twin_ids: false,
+        twin_by_name: false,
     })
 }
 
@@ -478,9 +503,9 @@ fn wire_case_strategy_general() -> impl Strategy<Value = WireCase> {
         prop_oneof![8 => Just(0u16), 2 => 1u16..200, 1 => 200u16..2000],
         proptest::collection::vec((id_spec(), u64_spec(), u64_spec(), proptest::collection::vec(kv_spec(), 0..8), proptest::option::of(u64_spec())), 0..5),
         blocking_strategy(),
-        prop_oneof![4 => Just(false), 1 => Just(true)],
+        (prop_oneof![4 => Just(false), 1 => Just(true)], prop_oneof![3 => Just(false), 1 => Just(true)]),
     )
-        .prop_map(|(kind, cluster_id, digest, bulk_digest, deltas, blocking, twin_ids)| WireCase {
+        .prop_map(|(kind, cluster_id, digest, bulk_digest, deltas, blocking, (twin_ids, twin_by_name))| WireCase {
             kind,
             cluster_id,
             digest,
@@ -488,6 +513,7 @@ fn wire_case_strategy_general() -> impl Strategy<Value = WireCase> {
             deltas: deltas.into_iter().map(|(id, gc, from, kvs, set_max)| NodeDeltaSpec { id, gc, from, kvs, set_max }).collect(),
             blocking,
             twin_ids,
+            twin_by_name,
         })
 }
 
